@@ -78,7 +78,7 @@ def get_const_info(const_index, const_list):
         prefer_double_quote(repr(arg_val))
         if isinstance(arg_val, str)
         else better_repr(arg_val)
-        if isinstance(arg_val, types.CodeType)
+        if isinstance(arg_val, (types.CodeType, set, frozenset))
         else repr(arg_val)
     )
 
